@@ -69,6 +69,10 @@ def handle (st : DState) (kw : String) (toks : List Nat) : DState × String :=
               | .panic p => panicLine p
               | o => "ok " ++ show_ (outcomeToks o)))
         | none => (st, "bad-case")
+      | "update" =>
+        match run modeTable toks with
+        | none => (st, "bad-case")
+        | some mt => (st, exceptLine (getStoreUpdates w mt) updatesToks)
       | "resolve" =>
         (st, exceptLine (resolve w) (fun r =>
           conclusionToks r.conclusion ++ [r.results.length] ++ r.results.flatMap resultToks))
